@@ -18,9 +18,22 @@ class C34/enum-ctype-per-generated-module, see `enum_ctype_per_module_witness`.
 namespace CffiVerif.C34
 open CffiVerif.Include
 
+open CffiVerif.Generated in
+/-- The order of steps the model implements is the order in the C source (regenerated every run), and the
+    recursion bounds are the source's: own table first, then every include in order and recursively, the early
+    exit for recursive frames only AFTER that scan, AttributeError last; self-calls add 1, the guards are
+    `recursion > 100` — hence the fuels 101 used below. -/
+theorem lookup_order_is_source :
+    IncludeSteps.libSteps = modelLibSteps ∧
+    IncludeSteps.fetchStructSteps = modelFetchStructSteps ∧
+    IncludeSteps.fetchConstSteps = modelFetchConstSteps ∧
+    IncludeSteps.libRecursionStep = 1 ∧ IncludeSteps.fetchStructRecursionStep = 1 ∧
+    IncludeSteps.fetchConstRecursionStep = 1 ∧
+    libFuel = 101 ∧ structFuel = 101 ∧ constFuel = 101 := by decide
+
 /-- An external struct/union entry resolves to its origin's ctype object. -/
 theorem external_resolves_to_origin (mods : Mods) (name : String) (isUnion : Bool) (o : ObjId)
-    (wf : WF mods name isUnion o) (k : Nat) (hd : depthOk mods 101 k = true)
+    (wf : WF mods name isUnion o) (k : Nat) (hd : depthOk mods structFuel k = true)
     (m : Module) (hm : mods[k]? = some m) (s : SDecl) (hs : m.structs.lookup name = some s) :
     realizeStruct mods k name = .ok o := by
   unfold realizeStruct
@@ -30,13 +43,13 @@ theorem external_resolves_to_origin (mods : Mods) (name : String) (isUnion : Boo
   | true =>
     have hk := wf.kind k m s hm hs
     rw [hk]
-    simp [fetch_origin mods name isUnion o wf 101 k m s hd hm hs hext]
+    simp [fetch_origin mods name isUnion o wf structFuel k m s hd hm hs hext]
 
 /-- Hence any two modules that know the tag — the defining one, a direct includer, an includer of
     an includer, two branches of a diamond — hold the *same* ctype object. -/
 theorem shared_struct_identity (mods : Mods) (name : String) (isUnion : Bool) (o : ObjId)
     (wf : WF mods name isUnion o) (k1 k2 : Nat)
-    (hd1 : depthOk mods 101 k1 = true) (hd2 : depthOk mods 101 k2 = true)
+    (hd1 : depthOk mods structFuel k1 = true) (hd2 : depthOk mods structFuel k2 = true)
     (m1 m2 : Module) (hm1 : mods[k1]? = some m1) (hm2 : mods[k2]? = some m2)
     (s1 s2 : SDecl) (hs1 : m1.structs.lookup name = some s1) (hs2 : m2.structs.lookup name = some s2) :
     realizeStruct mods k1 name = realizeStruct mods k2 name := by
@@ -46,29 +59,29 @@ theorem shared_struct_identity (mods : Mods) (name : String) (isUnion : Bool) (o
 /-- An integer constant defined (once, or with one value) anywhere below `k` in the include graph
     is what `ffi.integer_const(name)` of module `k` returns. -/
 theorem constants_visible (mods : Mods) (name : String) (k : Nat) (v : Int)
-    (hd : depthOk mods 101 k = true) (hno : NoOther mods name (dfs mods 101 k))
-    (hex : ∃ j ∈ dfs mods 101 k, ownConst mods name j = some v)
-    (hone : ∀ j ∈ dfs mods 101 k, ∀ w, ownConst mods name j = some w → w = v) :
-    fetchConst mods name 101 k = .ok (some v) := by
-  rw [fetchConst_spec mods name 101 k hd hno, findSome_unique (ownConst mods name) _ v hex hone]
+    (hd : depthOk mods constFuel k = true) (hno : NoOther mods name (dfs mods constFuel k))
+    (hex : ∃ j ∈ dfs mods constFuel k, ownConst mods name j = some v)
+    (hone : ∀ j ∈ dfs mods constFuel k, ∀ w, ownConst mods name j = some w → w = v) :
+    fetchConst mods name constFuel k = .ok (some v) := by
+  rw [fetchConst_spec mods name constFuel k hd hno, findSome_unique (ownConst mods name) _ v hex hone]
 
 /-- `lib.name` of module `k` is the module's own global or, failing that, the first definition
     met in depth-first order over the included libs (in `ffi.include()` order). -/
 theorem lib_delegation_finds_first (mods : Mods) (name : String) (k : Nat)
-    (hd : depthOk mods 101 k = true) :
-    libLookup mods name 101 k = .ok (firstDef mods name (dfs mods 101 k)) :=
-  libLookup_spec mods name 101 k hd
+    (hd : depthOk mods libFuel k = true) :
+    libLookup mods name libFuel k = .ok (firstDef mods name (dfs mods libFuel k)) :=
+  libLookup_spec mods name libFuel k hd
 
 /-- … so `getattr(lib, name)` succeeds iff some reachable module defines the name, and then yields
     that module's object; otherwise `AttributeError`. -/
-theorem lib_getattr (mods : Mods) (name : String) (k : Nat) (hd : depthOk mods 101 k = true) :
+theorem lib_getattr (mods : Mods) (name : String) (k : Nat) (hd : depthOk mods libFuel k = true) :
     libGetattr mods k name =
-      match firstDef mods name (dfs mods 101 k) with
+      match firstDef mods name (dfs mods libFuel k) with
       | some r => .ok r
       | none => .error .attributeError := by
   unfold libGetattr
   rw [lib_delegation_finds_first mods name k hd]
-  cases firstDef mods name (dfs mods 101 k) <;> rfl
+  cases firstDef mods name (dfs mods libFuel k) <;> rfl
 
 /-! ### Non-vacuity: a diamond 3 → {1, 2} → 0 with a longer arm 3 → 4 → 1.
 Module 0 defines `struct s` (object 7), constant `K = 42` and function `f`; module 2 defines `g`
@@ -81,14 +94,14 @@ def m4 : Module := ⟨[("s", ⟨false, true, 0⟩)], [("e", 104)], [], [1]⟩
 def exMods : Mods := [m0, m1, m2, m3, m4]
 
 example : wfCheck exMods "s" false 7 = true := by decide
-example : depthOk exMods 101 3 = true := by decide
+example : depthOk exMods structFuel 3 = true := by decide
 example : realizeStruct exMods 3 "s" = .ok 7 :=
   external_resolves_to_origin exMods "s" false 7 (wf_of_check _ _ _ _ (by decide)) 3 (by decide) m3 rfl _ rfl
 example : realizeStruct exMods 3 "s" = realizeStruct exMods 0 "s" :=
   shared_struct_identity exMods "s" false 7 (wf_of_check _ _ _ _ (by decide)) 3 0 (by decide) (by decide)
     m3 m0 rfl rfl _ _ rfl rfl
-example : dfs exMods 101 3 = [3, 4, 1, 0, 2, 0] := by decide
-example : fetchConst exMods "K" 101 3 = .ok (some 42) := by decide
+example : dfs exMods libFuel 3 = [3, 4, 1, 0, 2, 0] := by decide
+example : fetchConst exMods "K" constFuel 3 = .ok (some 42) := by decide
 -- `f` is defined by modules 0 and 2: through 3 → 4 → 1 → 0 the first one met is module 0's
 example : libGetattr exMods 3 "f" = .ok (0, .other 1) := by decide
 example : libGetattr exMods 3 "g" = .ok (2, .other 2) := by decide
@@ -98,8 +111,8 @@ example : libGetattr exMods 3 "nope" = .error .attributeError := by decide
 def chain : Nat → Mods
   | 0 => [⟨[], [], [("K", .intConst 1)], []⟩]
   | n + 1 => chain n ++ [⟨[], [], [], [n]⟩]
-example : fetchConst (chain 101) "K" 101 101 = .ok (some 1) := by decide +kernel
-example : fetchConst (chain 102) "K" 101 102 = .error .recursionOverflow := by decide +kernel
+example : fetchConst (chain 101) "K" constFuel 101 = .ok (some 1) := by decide +kernel
+example : fetchConst (chain 102) "K" constFuel 102 = .error .recursionOverflow := by decide +kernel
 
 /-- Full-strength statement "every shared declaration kind is one ctype object in all modules"
     fails for enums in generated modules: the including module re-emits the enum and
@@ -111,7 +124,7 @@ theorem enum_ctype_per_module_witness :
 /-- The shared-identity statement restricted to the kinds for which it holds (`…_partial`):
     structs and unions. -/
 theorem shared_ctype_partial (mods : Mods) (name : String) (isUnion : Bool) (o : ObjId)
-    (wf : WF mods name isUnion o) (k : Nat) (hd : depthOk mods 101 k = true)
+    (wf : WF mods name isUnion o) (k : Nat) (hd : depthOk mods structFuel k = true)
     (m : Module) (hm : mods[k]? = some m) (hk : (m.structs.lookup name).isSome = true) :
     realizeStruct mods k name = .ok o := by
   cases hs : m.structs.lookup name with
